@@ -23,7 +23,7 @@ def pick_paths(r, ast, n):
 
 class C15(Prop):
     pid = "C15"
-    fields = {"jsonset": ["err", "result"], "obs": ["outcome", "errors", "logs", "writes", "line"], "fs": "*"}
+    fields = {"jsonset": ["err", "result"], "yamlset": ["err"], "obs": ["outcome", "errors", "logs", "writes", "line"], "fs": "*"}
     rule = ("random JSON documents x existing simple paths (object members incl. keys with dots, array elements, nested) x "
             "placeholders (shorter/longer than the value, non-string, needing JSON escapes, containers): single Any matcher through "
             "the matcher itself AND on the caller's own []byte (buffer compared before/after), plus matcher SEQUENCES (Any with "
@@ -65,6 +65,35 @@ class C15(Prop):
                 m = G.op_match_doc(r.choice(["json", "standjson"]), 0, t, doc, r.choice(["string", "bytes"]), ms)
                 m["exp"] = json.dumps(self.apply(J.to_py(ast), repl))
                 ops.append(m)
+            if r.chance(1, 3):
+                # one matcher value reused across documents (a table test): an earlier document lacks a path
+                ms = [{"kind": "any", "paths": ["id", "createdAt", "token"], "errOnMissing": False}]
+                t = r.choice(G.TEST_NAMES)
+                d_missing = r.choice([b'{"createdAt":"c0","token":"t0","k":1}', b'{"token":"t0"}', b'{"id":"i","token":"t"}'])
+                first = G.op_match_doc("json", 0, t, d_missing, "string", ms)
+                full = {"id": "i1", "createdAt": "c1", "token": "t1", "keep": [1, 2]}
+                second = G.op_match_doc("json", 0, t, json.dumps(full).encode(), "string", ms)
+                second["exp"] = json.dumps({"id": "<Any value>", "createdAt": "<Any value>", "token": "<Any value>", "keep": [1, 2]})
+                ops += [first, second]
+            if r.chance(1, 3):
+                # YAML: container placeholders at paths of different depth, deeper first
+                doc = b"top:\n  mid:\n    deep:\n      value: 1\n    other: keep\n  side: 2\nlist:\n  - a\n  - id: b\nlast: z\n"
+                ph = r.choice(['["x","y"]', '{"k1":1,"k2":2}', '"scalar"', '[1]'])
+                pths = r.choice([["$.top.mid.deep.value", "$.last"], ["$.top.mid.deep.value", "$.top.side"], ["$.last", "$.top.mid.deep.value"],
+                                 ["$.top.mid.deep.value", "$.list[1].id", "$.last"], ["$.top.mid.other", "$.last"]])
+                exp = {"top": {"mid": {"deep": {"value": 1}, "other": "keep"}, "side": 2}, "list": ["a", {"id": "b"}], "last": "z"}
+                for pth in pths:
+                    o = exp
+                    comps = pth[2:].replace("[", ".").replace("]", "").split(".")
+                    for c in comps[:-1]:
+                        o = o[int(c)] if c.isdigit() else o[c]
+                    c = comps[-1]
+                    if c.isdigit():
+                        o[int(c)] = json.loads(ph)
+                    else:
+                        o[c] = json.loads(ph)
+                ops.append({"op": "yamlset", "doc": hx(doc), "matchers": [{"kind": "any", "paths": pths, "placeholder": ph}],
+                            "exp": json.dumps(exp)})
             cases.append({"ci": False, "updvar": "unset", "colour": False, "ops": ops, "meta": {}})
         return cases
 
@@ -88,15 +117,25 @@ class C15(Prop):
 
     def oracle(self, case, ops, results):
         fails = []
-        raws = [o for o in case["ops"] if o["op"] in ("jsonset", "match")]
-        res = [r for r in results if r[0] in ("jsonset", "obs")]
-        ol = [o for o in ops if o[0] in ("jsonset", "match")]
+        raws = [o for o in case["ops"] if o["op"] in ("jsonset", "match", "yamlset")]
+        res = [r for r in results if r[0] in ("jsonset", "obs", "yamlset")]
+        ol = [o for o in ops if o[0] in ("jsonset", "match", "yamlset")]
         if not (len(raws) == len(res) == len(ol)):
             return []
         for raw, (kind, idx, o), (name, kv) in zip(raws, res, ol):
             if "exp" not in raw:
                 continue
             exp = json.loads(raw["exp"])
+            if kind == "yamlset":
+                if o.get("err") == "*":
+                    continue
+                if o.get("err") != "0":
+                    fails.append({"msg": "yamlset %d: matchers on existing paths reported an error" % idx})
+                elif o.get("valid") != "1":
+                    fails.append({"msg": "yamlset %d: result is not a valid YAML document: %r" % (idx, unhx(o["result"])[:80])})
+                elif json.loads(unhx(o["result"])) != exp:
+                    fails.append({"msg": "yamlset %d: result differs from the input with the targeted values replaced" % idx})
+                continue
             if kind == "jsonset":
                 if o.get("err") != "0":
                     fails.append({"msg": "jsonset %d: existing path reported an error" % idx})
